@@ -364,10 +364,50 @@ def run_reuse(case, agg):
     agg.ok(h8("c06o", case), "ok:object-reuse", sample=case if case["ops"] == ["gi-a256kw", "enc-direct"] else None)
 
 
+def cli_default_cases(tier):
+    return [{"kid": k, "ctx": c, "sub": sub} for k in ("0x7FFFFFE0", "0", "24", "0X100") for c in ("path", "json") for sub in ("enc", "gi")]
+
+
+def run_cli_defaults(case, agg):
+    """the real CLI with the optional arguments left out: --hash-alg defaults to sha-256, --kw-alg to direct."""
+    import json as _json
+    es, ks = escripts()
+    kid = int(case["kid"], 0)
+    ctx = vkeys.key_dir() if case["ctx"] == "path" else _json.dumps({"keys_directory": vkeys.key_dir()})
+    with fresh_dir("c06d") as d:
+        od = os.path.join(d, "out")
+        os.makedirs(od)
+        if case["sub"] == "enc":
+            pt = plaintext(77, 3)
+            fw = os.path.join(d, "fw.bin")
+            open(fw, "wb").write(pt)
+            rc, so, se = impl.cli(["encrypt", "encrypt-and-generate", "--firmware", fw, "--key-name", "aes", "--key-id", case["kid"], "--context", ctx,
+                                   "--output-dir", od, "--kms-script", ks, "--encrypt-script", es], d)
+            args, kw, cek = (vkeys.aes_key("aes"), pt, kid, "sha-256"), "direct", None
+        else:
+            blob = bytes((i * 3 + 1) % 256 for i in range(100))
+            fb, fk = os.path.join(d, "b.bin"), os.path.join(d, "k.bin")
+            open(fb, "wb").write(blob)
+            open(fk, "wb").write(b"K" * 24)
+            rc, so, se = impl.cli(["encrypt", "generate-info", "--encrypted-firmware", fb, "--encrypted-key", fk, "--key-id", case["kid"],
+                                   "--output-dir", od, "--encrypt-script", es], d)
+            args, kw, cek = (None, None, kid, None), "direct", b"K" * 24
+        if rc != 0:
+            agg.viol("C06:cli-defaults/failed", f"{case}: rc={rc} {se[-300:]}")
+            return
+        r = check_artifacts(od, *args, kw=kw, cek=cek)
+        problems = r[0] if isinstance(r, tuple) else r
+    if problems:
+        agg.viol(f"C06:cli-defaults/{problems[0][0]}", f"{case}: " + "; ".join(p[1] for p in problems[:2]))
+    else:
+        agg.ok(h8("c06d", case), "ok:cli-defaults", sample=case if case["kid"] == "0X100" and case["sub"] == "enc" else None)
+
+
 def plan(tier):
     return [
         CaseStage("encrypt-and-generate", lambda: enc_cases(tier), run_enc, disjoint=True, rule="length x key id x digest alg x entry path"),
         CaseStage("generate-info", lambda: gi_cases(tier), run_gi, disjoint=True, rule="blob length x key id x kw alg x entry path"),
+        CaseStage("cli-defaults", lambda: cli_default_cases(tier), run_cli_defaults, rule="real CLI with optional arguments omitted, key id syntax, context as path / JSON"),
         CaseStage("encryptor-object-reused", lambda: reuse_cases(tier), run_reuse, rule="all sequences of 2 and 3 operations {encrypt direct, generate direct, generate aes-kw-256} on ONE Encryptor object"),
         CaseStage("output-directory-reused", lambda: rewrite_cases(tier), run_rewrite, rule="ordered pairs of runs (sub-command x length) into one directory"),
     ]
